@@ -3,7 +3,7 @@
 # then removes the seed-writer's scratch worktrees /tmp/seed_Cnn_{A,B}.
 P=$1; CH=${2:-$1}; LET=${3:-"A B"}; D=${4:-/tmp/seedout_$P}
 cd "$(dirname "$0")/.."
-EXTRA=$(ls $D/*.py $D/*.pddl $D/*.txt 2>/dev/null | grep -v '/demo_[ABCDEF].py$\|passed\|base_' | tr '\n' ',')
+EXTRA=$(ls $D/*.py $D/*.pddl $D/*.txt 2>/dev/null | grep -v '/demo_[ABCDEFGH].py$\|passed\|base_' | tr '\n' ',')
 for X in $LET; do
   [ -f $D/patch_$X.diff ] || continue
   S=$(python3-vt -c "import json,sys; m=json.load(open('$D/meta.json')); print(m.get('$X',{}).get('summary',''))" 2>/dev/null)
